@@ -1,9 +1,10 @@
 package main
 
 import (
+	"fmt"
 	"go/ast"
+	"go/token"
 	"go/types"
-	"strings"
 
 	"golang.org/x/tools/go/ssa"
 )
@@ -59,42 +60,52 @@ func isUserFunctionCode(w *World, uf *FuncInfo, fn *ssa.Function) bool {
 func exitEscapesRule(r *Run, rule string) {
 	w := r.W
 	f := w.userFunctionEval()
-	blockEval := w.evalMethod("BlockStatement")
-	if f == nil || blockEval == nil {
+	m := w.coreModel()
+	if f == nil || m.block == nil {
 		r.Lost(rule, "user-function call evaluator / block evaluator")
 		return
 	}
-	info := f.Pkg.TypesInfo
-	for _, ret := range returnsIn(f.Decl.Body) {
-		if len(ret.Results) == 1 {
-			if c, ok := unparen(ret.Results[0]).(*ast.CallExpr); ok && calleeOf(info, c) == blockEval.Obj {
-				r.Bad(rule, f.Name(), "returns the block result unopened", w.Pos(ret.Pos()),
-					"the body's result is a return wrapper (returnObject); handing it back unopened makes 'f(1) == 1' compare a wrapper with an int and 'if (f(false))' test a non-nil struct")
-				return
+	fn := w.SSAFunc(f)
+	if fn == nil {
+		r.Lost(rule, "SSA form of the user-function call evaluator")
+		return
+	}
+	// on the paths of the call evaluator (its helpers and function literals walked in line): what it
+	// returns when the body was evaluated without error
+	paths, ok := walkPathsUnrolled(fn, nil, m.inline, 50000)
+	if !ok || len(paths) == 0 {
+		r.Lost(rule, "paths of the user-function call evaluator")
+		return
+	}
+	nBody, unopened := 0, 0
+	var at token.Pos = fn.Pos()
+	for _, p := range paths {
+		if p.end != "return" || len(p.results) != 2 {
+			continue
+		}
+		var body *ssa.Call
+		for _, ev := range p.events {
+			if c, ok := ev.(*ssa.Call); ok && c.Call.StaticCallee() == m.block {
+				body = c
 			}
+		}
+		if body == nil {
+			continue
+		}
+		nBody++
+		if cal, call := evalResult(p, p.results[0], 0); cal == m.block && call == body {
+			unopened++
+			at = p.ret.Pos()
 		}
 	}
-	// accepted: the block result is assigned, inspected with an assertion / type switch on the return wrapper, and opened
-	opened := false
-	inspectBody(f.Decl.Body, true, func(n ast.Node) bool {
-		switch x := n.(type) {
-		case *ast.TypeAssertExpr:
-			if x.Type != nil && strings.HasSuffix(typeStr(info.Types[x.Type].Type), "returnObject") {
-				opened = true
-			}
-		case *ast.CaseClause:
-			for _, e := range x.List {
-				if tv, ok := info.Types[e]; ok && tv.IsType() && strings.HasSuffix(typeStr(tv.Type), "returnObject") {
-					opened = true
-				}
-			}
-		}
-		return true
-	})
-	if opened {
-		r.Ok(rule, f.Name(), "return wrapper opened at the call boundary", w.Pos(f.Decl.Pos()), "assertion / type switch on the return wrapper")
-	} else {
-		r.Bad(rule, f.Name(), "return wrapper not opened", w.Pos(f.Decl.Pos()), "the call evaluator must open the return wrapper where the call returns")
+	switch {
+	case nBody == 0:
+		r.Lost(rule, "a path of the call evaluator that evaluates the function's body")
+	case unopened > 0:
+		r.Bad(rule, f.Name(), "returns the block result unopened", w.Pos(at),
+			"the body's result is a return wrapper (returnObject); handing it back unopened makes 'f(1) == 1' compare a wrapper with an int and 'if (f(false))' test a non-nil struct")
+	default:
+		r.Ok(rule, f.Name(), "return wrapper opened at the call boundary", w.Pos(f.Decl.Pos()), fmt.Sprintf("on none of the %d path(s) that evaluate the body is the block's result handed back as it is", nBody))
 	}
 }
 
